@@ -119,7 +119,11 @@ class FnAlias:
         self.fid = fid
         self.fn = summ.repo.functions[fid]
         a = self.fn.args
-        self.params = [x.arg for x in a.posonlyargs + a.args + a.kwonlyargs]   # *args/**kwargs are fresh containers
+        self.params = [x.arg for x in a.posonlyargs + a.args + a.kwonlyargs]   # **kwargs is a fresh container
+        if a.vararg is not None:
+            # *args: a fresh tuple, but its ELEMENTS are the caller's objects -- tracked as a parameter whose deep mutations
+            # are charged to the surplus positional arguments of each call (bind_args)
+            self.params.append(a.vararg.arg)
         self.mutated = {}       # param -> witness
         self.returned = {}      # param -> kind
         self.absorbed = set()   # params stored into self
@@ -241,7 +245,13 @@ class FnAlias:
         elif is_method and fn.name == '__init__':
             pos = pos[1:]
         for i, arg in enumerate(call.args):
-            if isinstance(arg, ast.Starred) or i >= len(pos):
+            if isinstance(arg, ast.Starred):
+                break
+            if i >= len(pos):
+                if a.vararg is not None:
+                    # element of the callee's *args tuple: one level below the parameter
+                    out.append((a.vararg.arg, ast.Tuple(elts=[arg], ctx=ast.Load())))
+                    continue
                 break
             out.append((pos[i], arg))
         names = set(pos) | {x.arg for x in a.kwonlyargs}
